@@ -542,6 +542,8 @@ ObsOf(rec, lt) ==
          utxo |-> {UtxoRow(u) : u \in rec.s.utxo},
          keys |-> [k \in Keys |-> KeyObs(rec.s, k)],
          pool |-> rec.pool,
+         \* GetUnconfirmedTx(true): what the miner is offered (pending and not yet on the ledger's main chain)
+         poold |-> {t \in rec.pool : ~\E b \in Anc(lt) : t \in TxsOf(b)},
          \* GetBalanceDetail: <<unfrozen, frozen>> per address, frozen = frozen height above the ledger's trunk height
          bald |-> [i \in 1..Len(Addrs) |-> <<ToString(SumAmt({u \in rec.s.utxo : u.ad = Addrs[i] /\ u.fz <= Height(lt)})),
                                              ToString(SumAmt({u \in rec.s.utxo : u.ad = Addrs[i] /\ u.fz > Height(lt)}))>>],
